@@ -24,13 +24,14 @@ class Prop(PropBase):
                     continue
                 cfg = scen.rand_cfg(rng, dense=rng.randrange(2), wait=0)
                 # answers: ids 1..3 cycle (recycled), N bursts; never the buffer currently held: alternate ids
+                # every get happens after the previous buffer was handed back (or after a null), so any
+                # script is a legal caller: a single-buffer caller, a small pool, nulls in bursts
                 ans = []
-                cur = None
-                for k in range(rng.choice([4, 8, 12])):
-                    if rng.random() < 0.3:
+                pool = rng.choice([(1,), (1, 2), (1, 2, 3)])
+                for k in range(rng.choice([4, 8, 12, 30])):
+                    if rng.random() < 0.25:
                         ans += ['N'] * rng.choice([1, 2, 3])
-                    nxt = rng.choice([x for x in (1, 2, 3) if x != cur])
-                    ans.append(nxt); cur = nxt
+                    ans.append(rng.choice(pool))
                 scn_all.append(scen.mixed_scenario(rng, self.L, t, f'c06_{t}_{r}', cfg, answers=ans, npk=rng.choice([4, 6, 9]) if t != 'RSM1_JUMBO' else 2,
                                                    malformed_p=0.1, step=rng.choice([20, 200, 2000]), big_steps=True))
         return [('hist', '\n'.join(scn_all) + '\n')]
